@@ -3,7 +3,7 @@
 # tools/seed_extra.txt) against a scratch copy with the patch applied; prints one line per (seed, check)
 tier=${1:-quick}
 filter=${2:-.}
-cd /verif
+cd "$(dirname "$(readlink -f "$0")")/.."
 for d in seeded/*/; do
   n=$(basename $d); echo $n | grep -Eq "$filter" || continue; p=$(python3 -c "import json;print(json.load(open('$d/meta.json'))['breaks_property'])")
   extra=$(grep "^$n " tools/seed_extra.txt 2>/dev/null | cut -d' ' -f2-)
